@@ -576,4 +576,4 @@ def replay(ctx, path):
     lines = [l for l in open(path) if l.strip() and not l.startswith("#")]
     rc, out = core.sh([impl], input="".join(lines))
     print(out)
-    return 1 if ("DIFF" in out or rc != 0) else 0
+    return 1 if ("DIFF" in out or "CRASH" in out or rc != 0) else 0
